@@ -100,6 +100,26 @@ func c07Gen(r *Rng, tier string, i int) Sx {
 	if r.Chance(1, 5) {
 		opts = append(opts, L(A("strict")))
 	}
+	// "/*" fallback routes for some methods only: their answers must not leak to other methods through the cache
+	if r.Chance(1, 4) {
+		ms := []string{r.Pick([]string{"GET", "POST", "PUT"})}
+		if r.Bool() {
+			ms = append(ms, r.Pick(rtMethods))
+		}
+		t.defs = append(t.defs, L(SL(ms), S("/*"), B(false)))
+		t.pats = append(t.pats, nil)
+		t.paths = append(t.paths, r.Pick([]string{"/pages/two", "/zz", "/a/b/c/d"}))
+		t.meths = append(t.meths, append(ms, "HEAD", "POST"))
+		hasFb := false
+		for _, o := range opts {
+			if o.Head() == "fb" {
+				hasFb = true
+			}
+		}
+		if !hasFb {
+			opts = append(opts, L(A("fb")))
+		}
+	}
 	// a pool of 2..8 URLs, drawn with repetition so that hits, misses and evictions all occur
 	type url struct{ m, p string }
 	var pool []url
